@@ -576,21 +576,25 @@ func (m *Model) awaitedBySpawner(sp Spawn) bool {
 	}
 	m.awaitedMemo[sp.At] = false
 	signals := map[string]bool{}
-	for _, t := range sp.Targets {
-		eachInstr(t, func(in ssa.Instruction) {
-			switch x := in.(type) {
-			case *ssa.Call:
-				if b, isB := x.Call.Value.(*ssa.Builtin); isB && b.Name() == "close" && len(x.Call.Args) == 1 {
-					signals[m.Sym.Of(m.traceValue(x.Call.Args[0])).String()] = true
+	if sp.Signal != nil {
+		signals[m.Sym.Of(sp.Signal).String()] = true
+	} else {
+		for _, t := range sp.Targets {
+			eachInstr(t, func(in ssa.Instruction) {
+				switch x := in.(type) {
+				case *ssa.Call:
+					if b, isB := x.Call.Value.(*ssa.Builtin); isB && b.Name() == "close" && len(x.Call.Args) == 1 {
+						signals[m.Sym.Of(m.traceValue(x.Call.Args[0])).String()] = true
+					}
+				case *ssa.Defer:
+					if b, isB := x.Call.Value.(*ssa.Builtin); isB && b.Name() == "close" && len(x.Call.Args) == 1 {
+						signals[m.Sym.Of(m.traceValue(x.Call.Args[0])).String()] = true
+					}
+				case *ssa.Send:
+					signals[m.Sym.Of(m.traceValue(x.Chan)).String()] = true
 				}
-			case *ssa.Defer:
-				if b, isB := x.Call.Value.(*ssa.Builtin); isB && b.Name() == "close" && len(x.Call.Args) == 1 {
-					signals[m.Sym.Of(m.traceValue(x.Call.Args[0])).String()] = true
-				}
-			case *ssa.Send:
-				signals[m.Sym.Of(m.traceValue(x.Chan)).String()] = true
-			}
-		})
+			})
+		}
 	}
 	f := sp.Fn
 	ok := false
@@ -678,6 +682,9 @@ type Spawn struct {
 	Targets []*ssa.Function
 	Tracked bool
 	Go      *ssa.Go
+	// Signal: for a call of a helper that starts a goroutine and returns the channel on which the
+	// goroutine signals its end (done := e.startX(...)), the call's value (that channel)
+	Signal ssa.Value
 }
 
 func (m *Model) Spawns() []Spawn {
@@ -736,12 +743,79 @@ func (m *Model) Spawns() []Spawn {
 			})
 		}
 	}
+	// "future" helpers: one go statement, and the function returns the channel (made in it) that
+	// the goroutine closes or sends on when it ends
+	futures := map[*ssa.Function]*ssa.Go{}
+	for _, h := range m.Funcs {
+		if h.Parent() != nil || h.Signature.Results().Len() != 1 {
+			continue
+		}
+		if _, isChan := h.Signature.Results().At(0).Type().Underlying().(*types.Chan); !isChan {
+			continue
+		}
+		var gos []*ssa.Go
+		eachInstr(h, func(in ssa.Instruction) {
+			if g, ok := in.(*ssa.Go); ok {
+				gos = append(gos, g)
+			}
+		})
+		if len(gos) != 1 {
+			continue
+		}
+		var made ssa.Value
+		okRet := true
+		for _, b := range liveBlocks(h) {
+			if ret, ok := b.Instrs[len(b.Instrs)-1].(*ssa.Return); ok && b != h.Recover {
+				v := m.traceValue(returnValue(ret, 0))
+				for {
+					if ct, ok := v.(*ssa.ChangeType); ok {
+						v = m.traceValue(ct.X)
+						continue
+					}
+					break
+				}
+				if mc, ok := v.(*ssa.MakeChan); ok && (made == nil || made == ssa.Value(mc)) {
+					made = mc
+				} else {
+					okRet = false
+				}
+			}
+		}
+		if made == nil || !okRet {
+			continue
+		}
+		signals := false
+		for _, t := range m.funcValueTargets(gos[0].Call.Value) {
+			eachInstr(t, func(in ssa.Instruction) {
+				switch x := in.(type) {
+				case *ssa.Call:
+					if b, isB := x.Call.Value.(*ssa.Builtin); isB && b.Name() == "close" && len(x.Call.Args) == 1 && m.traceValue(x.Call.Args[0]) == made {
+						signals = true
+					}
+				case *ssa.Defer:
+					if b, isB := x.Call.Value.(*ssa.Builtin); isB && b.Name() == "close" && len(x.Call.Args) == 1 && m.traceValue(x.Call.Args[0]) == made {
+						signals = true
+					}
+				case *ssa.Send:
+					if m.traceValue(x.Chan) == made {
+						signals = true
+					}
+				}
+			})
+		}
+		if signals {
+			futures[h] = gos[0]
+		}
+	}
 	var out []Spawn
 	for _, f := range m.Funcs {
 		eachInstr(f, func(in ssa.Instruction) {
 			switch x := in.(type) {
 			case *ssa.Go:
 				if hp, ok := helpers[topFunc(f)]; ok && hp.g == x {
+					return // reported at the helper's call sites
+				}
+				if fg, ok := futures[topFunc(f)]; ok && fg == x {
 					return // reported at the helper's call sites
 				}
 				var ts []*ssa.Function
@@ -754,6 +828,14 @@ func (m *Model) Spawns() []Spawn {
 				if h := x.Call.StaticCallee(); h != nil {
 					if hp, ok := helpers[h]; ok && hp.idx < len(x.Call.Args) {
 						out = append(out, Spawn{At: x, Fn: f, Targets: dedupFns(m.funcValueTargets(x.Call.Args[hp.idx])), Tracked: m.goTracked(hp.g), Go: hp.g})
+					}
+					if fg, ok := futures[h]; ok {
+						var ts []*ssa.Function
+						if sc := fg.Call.StaticCallee(); sc != nil {
+							ts = append(ts, sc)
+						}
+						ts = append(ts, m.funcValueTargets(fg.Call.Value)...)
+						out = append(out, Spawn{At: x, Fn: f, Targets: dedupFns(ts), Tracked: m.goTracked(fg), Go: fg, Signal: x})
 					}
 				}
 			}
@@ -943,6 +1025,41 @@ func (m *Model) unitGuards(unit *ssa.Function, in ssa.Instruction) []Lit {
 	return gs
 }
 
+
+// unitGuardsSubst is unitGuards with the parameters of the single-call-site functions replaced
+// by the arguments of their call sites, so that a test of a helper's parameter reads as a test of
+// what the unit passed in.
+func (m *Model) unitGuardsSubst(unit *ssa.Function, in ssa.Instruction) []Lit {
+	gs := append([]Lit{}, m.GuardsAt(in)...)
+	f := in.Parent()
+	for i := 0; i < 6 && f != unit && f != nil; i++ {
+		if f.Parent() != nil {
+			if mc := m.Sym.closureOf[f]; mc != nil {
+				gs = append(gs, m.GuardsAt(mc)...)
+				f = mc.Parent()
+				continue
+			}
+			break
+		}
+		sites := m.callers[f]
+		if len(sites) != 1 {
+			break
+		}
+		args := sites[0].Instr.Common().Args
+		sub := map[string]*Sym{}
+		for j, p := range f.Params {
+			if j < len(args) {
+				sub["param:"+p.Name()] = m.Sym.Of(args[j])
+			}
+		}
+		for j := range gs {
+			gs[j].S = substSym(gs[j].S, sub)
+		}
+		gs = append(gs, m.GuardsAt(sites[0].Instr)...)
+		f = sites[0].Caller
+	}
+	return gs
+}
 
 // ownerOf: the function whose body f is part of: f itself, or - if f is an unexported function
 // with exactly one (plain) call site - the owner of its caller.
